@@ -103,3 +103,132 @@ Example C10_durations : forall S scr,
                   cf_multi := true; cf_rnd := rnd64 |} in
   suspend_ticks (C 1%Z) 10 = 1%Z /\ suspend_ticks (C 1%Z) 40 = 2%Z /\ suspend_ticks (C 10%Z) 64 = 32%Z.
 Proof. intros. repeat split; vm_compute; reflexivity. Qed.
+
+(* ------------------------------------------------------------------------------------------ *)
+(* Simulator level: suspensions over whole runs (Proofs/SimCorollaryFacts.v).                   *)
+(* [sim_reach C a 0 (init_sim C np cpu ram) t s]: [s] is the simulator state after [t] ticks of some run of  *)
+(* the shipped scheduler [a]; [sim_reach C a t s t' s']: the run continues from [s] (tick t) to [s'] (tick    *)
+(* t'), whatever the scheduler orders in between. Of the shipped schedulers only priority issues             *)
+(* suspensions; the theorems hold for every algorithm. [pipes_in_range]: the pipelines name known operators  *)
+(* (true of [mk_static l] for well-formed DAGs, C10_sim_range_mk_static).                                      *)
+(* ------------------------------------------------------------------------------------------ *)
+From Eudoxia Require Import Model.Dag Model.Sched Model.Simulator Proofs.PriorityPoolRunFacts
+  Proofs.ExecLifeFacts Proofs.PriorityRunFacts Proofs.SimCorollaryFacts.
+
+(* the priority scheduler never has a suspension rejected: no run of it stops with EBadSuspend (this is a
+   clause of C12_run_commands_admissible) ... *)
+Theorem C10_sim_priority_never_rejected : forall C l np cpu ram arrivals sf logs er,
+  cf_static C = mk_static l -> dags_wf l -> (0 <= cpu)%Z -> (0 <= ram)%Q ->
+  sim_run C APriority 0%Z (init_sim C np cpu ram) arrivals = (sf, logs, Some er) ->
+  er <> EBadSuspend.
+Proof. exact SimCorollaryFacts.C10_sim_priority_never_rejected. Qed.
+Print Assumptions C10_sim_priority_never_rejected.
+
+Theorem C10_sim_range_mk_static : forall l, dags_wf l -> pipes_in_range (mk_static l).
+Proof. exact mk_static_pipes_in_range. Qed.
+Print Assumptions C10_sim_range_mk_static.
+
+(* ... and every suspension command of a tick that went through names a container running in the pool it
+   names, with can_suspend set; after the tick the container is one tick into its suspension of
+   D = suspend_ticks ticks (already over, with its unfinished operators PENDING, when D = 1), and whoever is
+   active under its id is a new container *)
+Theorem C10_sim_accepted : forall C, pipes_in_range (cf_static C) ->
+  forall a np cpu ram t s newp s' lg su,
+  sim_reach C a 0%Z (init_sim C np cpu ram) t s ->
+  sim_tick C a t s newp = Ok (s', lg) -> In su (tl_susp lg) ->
+  exists i p p' c,
+    su_pool su = Z.of_nat i /\ nth_error (e_pools (sm_exec s)) i = Some p /\ p_id p = i /\
+    nth_error (e_pools (sm_exec s')) i = Some p' /\
+    find_container (su_cid su) (p_active p) = Some c /\ c_can_suspend c = true /\
+    let D := suspend_ticks C (c_ram c) in
+    (D = 1%Z -> In (with_susp c 0) (p_suspended p') /\
+                forall o, In o (skipn (c_opidx c) (c_ops c)) -> st_of (e_world (sm_exec s')) o = Pending) /\
+    (D <> 1%Z -> In (with_susp c (D - 1)) (p_suspending p')) /\
+    (forall x, In x (p_active p') -> c_id x = su_cid su -> e_next (sm_exec s) <= c_id x).
+Proof. exact SimCorollaryFacts.C10_sim_accepted. Qed.
+Print Assumptions C10_sim_accepted.
+
+(* one simulator tick (any state, any commands of the scheduler): a suspending container loses one tick of
+   its countdown, nothing else in it changes ([with_susp] touches the counter only), and it moves to the
+   suspended list when the countdown ends *)
+Theorem C10_sim_countdown : forall C a t s newp s' lg i p c,
+  sim_tick C a t s newp = Ok (s', lg) ->
+  nth_error (e_pools (sm_exec s)) i = Some p -> In c (p_suspending p) ->
+  exists p', nth_error (e_pools (sm_exec s')) i = Some p' /\
+    ((c_susp_left c = 1)%Z -> In (with_susp c 0) (p_suspended p')) /\
+    ((c_susp_left c <> 1)%Z -> In (with_susp c (c_susp_left c - 1)) (p_suspending p')).
+Proof. exact SimCorollaryFacts.C10_sim_countdown. Qed.
+Print Assumptions C10_sim_countdown.
+
+(* the tick in which the countdown ends returns the unfinished operators to PENDING (assignable again) *)
+Theorem C10_sim_release : forall C, pipes_in_range (cf_static C) ->
+  forall a np cpu ram t s newp s' lg i p c,
+  sim_reach C a 0%Z (init_sim C np cpu ram) t s ->
+  sim_tick C a t s newp = Ok (s', lg) ->
+  nth_error (e_pools (sm_exec s)) i = Some p -> In c (p_suspending p) -> (c_susp_left c = 1)%Z ->
+  forall o, In o (skipn (c_opidx c) (c_ops c)) -> st_of (e_world (sm_exec s')) o = Pending.
+Proof. exact SimCorollaryFacts.C10_sim_release. Qed.
+Print Assumptions C10_sim_release.
+
+(* a container in the suspending list of a state of a run with k ticks left: t' - t < k ticks later it is
+   still there, unchanged but for the counter k - (t' - t) (no progress); from k ticks on it is in the
+   suspended list; in the state after exactly k ticks its unfinished operators are PENDING *)
+Theorem C10_sim_countdown_run : forall C, pipes_in_range (cf_static C) ->
+  forall a np cpu ram t s t' s' i p c,
+  sim_reach C a 0%Z (init_sim C np cpu ram) t s ->
+  sim_reach C a t s t' s' ->
+  nth_error (e_pools (sm_exec s)) i = Some p -> In c (p_suspending p) -> (1 <= c_susp_left c)%Z ->
+  exists p', nth_error (e_pools (sm_exec s')) i = Some p' /\
+    ((t' - t < c_susp_left c)%Z -> In (with_susp c (c_susp_left c - (t' - t))) (p_suspending p')) /\
+    ((c_susp_left c <= t' - t)%Z -> In (with_susp c 0) (p_suspended p')) /\
+    ((t' - t = c_susp_left c)%Z ->
+     forall o, In o (skipn (c_opidx c) (c_ops c)) -> st_of (e_world (sm_exec s')) o = Pending).
+Proof. exact SimCorollaryFacts.C10_sim_countdown_run. Qed.
+Print Assumptions C10_sim_countdown_run.
+
+(* the whole suspension in a run. The command [su] is issued (and accepted) in tick t; [s'] is the state
+   after tick t' - 1, i.e. t' - t ticks later counting the accepting tick, which is the first of the D ticks:
+   while t' - t < D the container [c] sits in the suspending list of its pool with D - (t' - t) ticks left and
+   is otherwise exactly as it was when suspended; from D ticks on it is in the suspended list; in the state
+   after exactly D ticks its unfinished operators are PENDING (its finished ones stay COMPLETED by
+   C02_sim_finality) *)
+Theorem C10_sim_suspension_lasts : forall C, pipes_in_range (cf_static C) ->
+  forall a np cpu ram t s newp s1 lg su t' s',
+  sim_reach C a 0%Z (init_sim C np cpu ram) t s ->
+  sim_tick C a t s newp = Ok (s1, lg) -> In su (tl_susp lg) ->
+  sim_reach C a (t + 1)%Z s1 t' s' ->
+  exists i p c p',
+    su_pool su = Z.of_nat i /\ nth_error (e_pools (sm_exec s)) i = Some p /\ p_id p = i /\
+    find_container (su_cid su) (p_active p) = Some c /\ c_can_suspend c = true /\
+    nth_error (e_pools (sm_exec s')) i = Some p' /\
+    let D := suspend_ticks C (c_ram c) in
+    ((t' - t < D)%Z -> In (with_susp c (D - (t' - t))) (p_suspending p')) /\
+    ((D <= t' - t)%Z -> In (with_susp c 0) (p_suspended p')) /\
+    ((t' - t = D)%Z ->
+     forall o, In o (skipn (c_opidx c) (c_ops c)) -> st_of (e_world (sm_exec s')) o = Pending).
+Proof. exact SimCorollaryFacts.C10_sim_suspension_lasts. Qed.
+Print Assumptions C10_sim_suspension_lasts.
+
+(* non-vacuity: the priority scheduler preempts batch container 0 (operators [0; 1], operator 0 finished,
+   4 GB, D = 2 at 10 ticks/s) for a query pipeline in tick 2 of a run: the hypotheses of
+   C10_sim_suspension_lasts hold with t = 2, t' = 4; after tick 2 it is suspending with 1 tick left and
+   operator 1 is SUSPENDING, after tick 3 it is suspended and operator 1 is PENDING again *)
+Example C10_sim_witness :
+  pipes_in_range (cf_static SimCorExamples.Cp) /\
+  sim_reach SimCorExamples.Cp APriority 0%Z (init_sim SimCorExamples.Cp 1 2%Z 40%Q) 2%Z SimCorExamples.p2 /\
+  sim_tick SimCorExamples.Cp APriority 2%Z SimCorExamples.p2 [2] = Ok (SimCorExamples.p3, SimCorExamples.plg2) /\
+  (exists su, In su (tl_susp SimCorExamples.plg2) /\ su_cid su = 0) /\
+  sim_reach SimCorExamples.Cp APriority 3%Z SimCorExamples.p3 4%Z SimCorExamples.p4 /\
+  suspend_ticks SimCorExamples.Cp 4%Q = 2%Z /\
+  map (fun p => map (fun c => (c_id c, c_susp_left c)) (p_suspending p)) (e_pools (sm_exec SimCorExamples.p3))
+    = [[(0, 1%Z)]] /\
+  map (fun p => map (fun c => (c_id c, c_susp_left c)) (p_suspended p)) (e_pools (sm_exec SimCorExamples.p4))
+    = [[(0, 0%Z)]] /\
+  w_st (e_world (sm_exec SimCorExamples.p3)) = [Completed; Suspending; Completed; Running; Pending] /\
+  w_st (e_world (sm_exec SimCorExamples.p4)) = [Completed; Pending; Completed; Completed; Pending].
+Proof.
+  split; [exact SimCorExamples.Cp_range|]. split; [exact SimCorExamples.p_reach2|].
+  split; [exact SimCorExamples.p_tick2|]. split; [exact SimCorExamples.p_susp|].
+  split; [exact SimCorExamples.p_reach34|].
+  exact (proj2 (proj2 SimCorExamples.p_facts)).
+Qed.
